@@ -29,6 +29,19 @@ CHECKS = {
              'arithmetic for the argument terms; float64 rounding only for the listed primitive shapes.',
         technique=TECH + ' (QF_UFLRA) and z3 floating-point theory (QF_FP) for the float64 lemmas',
         design='3/C05'),
+    'C06': dict(
+        text='Solver verdicts in three layers: (a) every difference function reachable via LogRule.diff, run on symbolic Taylor '
+             'coefficients / x / h / step ratio and an exact symbolic sqrt(1/2), contains exactly the powers k_0+step*j that the '
+             'real _fd_matrix (run symbolically) models, with matching coefficients and the documented sign flip (n, order<=10); '
+             '(b) CrossHair confirms over all paths for UNBOUNDED n, order the integer identities (parity tables, row index, '
+             'method_order rounding, Richardson spacing, periodicity in n, eval_first, default step count >= rule length); '
+             '(c) the real diff/apply with the pinv weights is exact on polynomials with symbolic coefficients of degree '
+             'n+method_order-1 over a grid of step ratios (z3 LRA, backward-error tolerance); degree+1 twin.',
+        note='Trusted: z3, CrossHair 0.0.110; convolve1d reference (validated per run); moment systems with condition number '
+             '> 1e12 (computed from the documented matrix, not from the library) are excluded and counted. Exactness is stated '
+             'against method_order (the documented rounding of `order`), not the raw order.',
+        technique=TECH + '; CrossHair symbolic execution for the unbounded integer identities',
+        design='3/C06'),
     'C07': dict(
         text='Bounded solver verdict on the real Richardson class: _r_matrix run with a symbolic ratio has the documented '
              'power in every entry; __call__ (pinv rule, convolution orientation/origin/trimming) maps L+sum_j a_j h^k_j to L in '
